@@ -873,7 +873,16 @@ func main() {
 		}
 		rows = append(rows, fmt.Sprintf("  (%q, %q)", f, key))
 	}
-	out.WriteString(strings.Join(rows, ",\n") + "]\n\nend Gen\n")
+	out.WriteString(strings.Join(rows, ",\n") + "]\n\n")
+	out.WriteString("/-- counter width (bits) of every numeric field of HistorySize -/\n")
+	out.WriteString("def historySizeWidths : List (String × Nat) := [\n")
+	var wrows []string
+	for _, f := range hs.fields {
+		if t := hs.ftypes[f]; t.kind == "bv" {
+			wrows = append(wrows, fmt.Sprintf("  (%q, %d)", f, t.width))
+		}
+	}
+	out.WriteString(strings.Join(wrows, ",\n") + "]\n\nend Gen\n")
 	write(filepath.Join(outdir, "Sizes.lean"), out.String())
 }
 
